@@ -518,4 +518,152 @@ theorem next_enabled (c : Cfg) (s : State) (p : Nat) (pr : Proc) (hp : s.procs[p
   case done r => simp [Pc.finished] at hf
   case dead => simp [Pc.finished] at hf
 
+
+/-! ## Whoever is recorded as the lock's owner is still on its way to removing it (both variants) -/
+
+/-- If the lock's recorded owner is one of the callers, that caller is in a lock-holding pc (and
+will remove the lock file with its next `unlock`) or died. -/
+def LInv (s : State) : Prop :=
+  ∀ (q : Nat) (pr : Proc), s.lock = some q → s.procs[q]? = some pr → pr.pc.holder = true ∨ pr.pc = .dead
+
+theorem linv_update {s : State} {p : Nat} {pr pr' : Proc} {lib' : Option File} {lock' : Option Nat}
+    (hinv : LInv s) (hp : s.procs[p]? = some pr)
+    (hnew : lock' = some p → pr'.pc.holder = true ∨ pr'.pc = .dead)
+    (hl : ∀ q, q ≠ p → lock' = some q → s.lock = some q) :
+    LInv ({ s with lib := lib', lock := lock' }.setProc p pr') := by
+  have hp' : ({ s with lib := lib', lock := lock' } : State).procs[p]? = some pr := hp
+  intro q prq hlq hq
+  rw [getElem?_setProc pr' q hp'] at hq
+  simp only [setProc_lock] at hlq
+  by_cases hqp : q = p
+  · simp [hqp] at hq; subst hq; subst hqp; exact hnew hlq
+  · simp [hqp] at hq
+    exact hinv q prq (hl q hqp hlq) hq
+
+theorem linv_update_local {s : State} {p : Nat} {pr pr' : Proc}
+    (hinv : LInv s) (hp : s.procs[p]? = some pr)
+    (hnew : s.lock = some p → pr'.pc.holder = true ∨ pr'.pc = .dead) : LInv (s.setProc p pr') := by
+  have := linv_update (lib' := s.lib) (lock' := s.lock) hinv hp hnew (fun _ _ h => h)
+  simpa using this
+
+theorem step_linv {c : Cfg} {s s' : State} {p : Nat} {a : Act}
+    (hinv : LInv s) (h : step c s p a = some s') : LInv s' := by
+  unfold step at h
+  split at h
+  · cases h
+  · rename_i pr hp
+    have hown : s.lock = some p → pr.pc.holder = true ∨ pr.pc = .dead := fun hl => hinv p pr hl hp
+    obtain ⟨pc, temp⟩ := pr
+    cases a
+    case check =>
+      cases pc <;> try (simp at h; done)
+      simp only [Option.some.injEq] at h; subst h
+      exact linv_update_local hinv hp (fun hl => by have := hown hl; simp [Pc.holder] at this)
+    case tryLock =>
+      cases pc <;> try (simp at h; done)
+      simp only at h
+      split at h
+      · rename_i hl
+        simp only [Option.some.injEq] at h; subst h
+        exact linv_update (lib' := s.lib) (lock' := some p) hinv hp (fun _ => Or.inl rfl)
+          (fun q hq hlq => by simp at hlq; exact absurd hlq.symm hq)
+      · simp only [Option.some.injEq] at h; subst h
+        exact linv_update_local hinv hp (fun hl => by have := hown hl; simp [Pc.holder] at this)
+    case compileBegin =>
+      cases pc <;> try (simp at h; done)
+      simp only [Option.some.injEq] at h; subst h
+      exact linv_update_local hinv hp (fun _ => Or.inl rfl)
+    case compileFinish =>
+      cases pc <;> try (simp at h; done)
+      simp only [Option.some.injEq] at h; subst h
+      exact linv_update_local hinv hp (fun _ => Or.inl rfl)
+    case compileFail =>
+      cases pc <;> try (simp at h; done)
+      simp only at h
+      split at h
+      · simp only [Option.some.injEq] at h; subst h
+        exact linv_update_local hinv hp (fun _ => Or.inl rfl)
+      · cases h
+    case rename =>
+      cases pc <;> try (simp at h; done)
+      simp only at h
+      split at h
+      · rename_i _ f
+        simp only [Option.some.injEq] at h; subst h
+        exact linv_update (lib' := some f) (lock' := s.lock) hinv hp (fun _ => Or.inl rfl) (fun _ _ h => h)
+      · simp only [Option.some.injEq] at h; subst h
+        exact linv_update_local hinv hp (fun _ => Or.inl rfl)
+    case unlock =>
+      cases pc <;> try (simp at h; done)
+      · simp only [Option.some.injEq] at h; subst h
+        exact linv_update (lib' := s.lib) (lock' := none) hinv hp (fun hl => by cases hl) (fun _ _ hl => by cases hl)
+      · simp only [Option.some.injEq] at h; subst h
+        exact linv_update (lib' := s.lib) (lock' := none) hinv hp (fun hl => by cases hl) (fun _ _ hl => by cases hl)
+    case poll =>
+      cases pc <;> try (simp at h; done)
+      simp only at h
+      have hno : s.lock = some p → False := fun hl => by have := hown hl; simp [Pc.holder] at this
+      split at h
+      · split at h
+        · simp only [Option.some.injEq] at h; subst h
+          exact linv_update_local hinv hp (fun hl => (hno hl).elim)
+        · simp only [Option.some.injEq] at h; subst h
+          exact linv_update_local hinv hp (fun hl => (hno hl).elim)
+      · split at h
+        · simp only [Option.some.injEq] at h; subst h
+          exact linv_update_local hinv hp (fun hl => (hno hl).elim)
+        · split at h
+          · simp only [Option.some.injEq] at h; subst h
+            exact linv_update_local hinv hp (fun hl => (hno hl).elim)
+          · simp only [Option.some.injEq] at h; subst h
+            exact linv_update (lib' := s.lib) (lock' := none) hinv hp (fun hl => by cases hl) (fun _ _ hl => by cases hl)
+    case load =>
+      cases pc <;> try (simp at h; done)
+      simp only at h
+      have hno : s.lock = some p → False := fun hl => by have := hown hl; simp [Pc.holder] at this
+      split at h
+      · simp only [Option.some.injEq] at h; subst h
+        exact linv_update_local hinv hp (fun hl => (hno hl).elim)
+      · split at h
+        · simp only [Option.some.injEq] at h; subst h
+          exact linv_update_local hinv hp (fun hl => (hno hl).elim)
+        · simp only [Option.some.injEq] at h; subst h
+          exact linv_update_local hinv hp (fun hl => (hno hl).elim)
+    case crash =>
+      simp only at h
+      split at h
+      · cases h
+      · simp only [Option.some.injEq] at h; subst h
+        exact linv_update_local hinv hp (fun _ => Or.inr rfl)
+
+theorem reach_linv {c : Cfg} {s t : State} (hinv : LInv s) (h : Reach c s t) : LInv t := by
+  induction h with
+  | refl => exact hinv
+  | tail p a _ hstep ih => exact step_linv ih hstep
+
+theorem step_len {c : Cfg} {s s' : State} {p : Nat} {a : Act} (h : step c s p a = some s') :
+    s'.procs.length = s.procs.length := by
+  unfold step at h
+  repeat' split at h
+  all_goals (cases h <;> simp [State.setProc])
+
+theorem reach_len {c : Cfg} {s t : State} (h : Reach c s t) : t.procs.length = s.procs.length := by
+  induction h with
+  | refl => rfl
+  | tail p a _ hstep ih => rw [step_len hstep, ih]
+
+/-- A lock owner that is not a caller can only be the initial (leftover) one. -/
+theorem step_foreign {c : Cfg} {s s' : State} {p : Nat} {a : Act} (h : step c s p a = some s')
+    (q : Nat) (hq : s'.lock = some q) (hf : s.procs.length ≤ q) : s.lock = some q := by
+  unfold step at h
+  split at h
+  · cases h
+  · rename_i pr hp
+    have hplt : p < s.procs.length := by
+      rcases Nat.lt_or_ge p s.procs.length with h1 | h1
+      · exact h1
+      · rw [List.getElem?_eq_none h1] at hp; cases hp
+    repeat' split at h
+    all_goals (cases h <;> (simp at hq <;> first | exact hq | (subst hq; omega)))
+
 end TsVerif.C19
